@@ -135,6 +135,17 @@ static double obj_func(double *x, int n, void *prm) {
   case 1: { double t1 = 1. - x[0], t2 = (n > 1 ? x[1] : 0.) - x[0]*x[0]; return t1*t1 + P(o,0)*t2*t2; }
   case 2: for (i = 0; i < n; i++) fx += (exp(P(o,i) * x[i]) - P(o,n+i) * x[i]); return fx;
   case 3: for (i = 0; i < n; i++) fx += (x[i] - P(o,i) * log(x[i])); return fx;
+  case 5: case 6: case 7: {       /* negative log-likelihoods of the current data set (op "data"), variables (log lambda, log tau), p[0] = mu:
+                                     the objective of esl_wei_FitComplete (5) and esl_sxp_FitComplete (7) rebuilt from the public logpdf's, and the gamma analogue (6) */
+      double lambda = exp(x[0]), tau = exp(n > 1 ? x[1] : 0.), mu = P(o,0), logL = 0.;
+      if (o->fam == 6 && !(tau > 0.)) return eslINFINITY;             /* esl_gam_logpdf would read an unset LogGamma answer */
+      if (o->fam == 7 && !(1./tau > 0.)) return eslINFINITY;          /* same in esl_sxp_logpdf */
+      for (i = 0; i < DN; i++) {
+        if (o->fam == 5) { if (tau != 1. && DX[i] == mu) continue; logL += esl_wei_logpdf(DX[i], mu, lambda, tau); }
+        else if (o->fam == 6) logL += esl_gam_logpdf(DX[i], mu, lambda, tau);
+        else logL += esl_sxp_logpdf(DX[i], mu, lambda, tau);
+      }
+      return -logL; }
   default: { int same = 1;
       for (i = 0; i < n; i++) { double xi = x[i], ai = P(o,i), bi = P(o,n+i);
         fx += (xi > bi) ? 2.0 * ai * (xi - bi) : ai * (bi - xi);
@@ -149,7 +160,8 @@ static void obj_dfunc(double *x, int n, void *prm, double *dx) {     /* quad onl
 static int obj_fam(const char *s) {
   if (!s) return -1;
   if (!strcmp(s, "quad")) return 0; if (!strcmp(s, "rosen")) return 1; if (!strcmp(s, "explin")) return 2;
-  if (!strcmp(s, "logbar")) return 3; if (!strcmp(s, "needle")) return 4; return -1;
+  if (!strcmp(s, "logbar")) return 3; if (!strcmp(s, "needle")) return 4;
+  if (!strcmp(s, "weinll")) return 5; if (!strcmp(s, "gamnll")) return 6; if (!strcmp(s, "sxpnll")) return 7; return -1;
 }
 static ESL_MIN_CFG *mk_cfg(int n) {      /* cfg=null -> NULL; cfg=create -> esl_min_cfg_Create(n) with the overrides given */
   const char *c = h_arg("cfg"); ESL_MIN_CFG *cfg; double *u; int nu, i;
@@ -198,12 +210,26 @@ static void do_min(const char *op) {
   cfg = mk_cfg(n); wrk = malloc(sizeof(double) * n); buf = malloc(64 + 24 * (size_t) n);
   if (!strcmp(op, "cgd")) {
     double fx = -7777.; int st; double *x = malloc(sizeof(double) * n); memcpy(x, x0, sizeof(double) * n);   /* exact-size copy */
+    ESL_MIN_DAT *dat = h_argi("nodat", 0) ? NULL : esl_min_dat_Create(cfg);
     alarm(H_FIT_TIMEOUT);
-    st = esl_min_ConjugateGradientDescent(cfg, x, n, obj_func, (h_argi("grad", 0) && o.fam == 0) ? obj_dfunc : NULL, &o, &fx, NULL);
+    st = esl_min_ConjugateGradientDescent(cfg, x, n, obj_func, (h_argi("grad", 0) && o.fam == 0) ? obj_dfunc : NULL, &o, &fx, dat);
     alarm(0);
+    buf = realloc(buf, 256 + 24 * (size_t) n + (dat ? 40 * (size_t) (dat->niter + 2) : 0));
     len += sprintf(buf + len, "%s fx=%s x=", h_status(st), h_dbits(fx));
     if (st == eslOK || st == eslENOHALT) for (i = 0; i < n; i++) len += sprintf(buf + len, "%s%s", i ? "," : "", h_dbits(x[i]));
     else len += sprintf(buf + len, "-");       /* "<x> is undefined" on thrown exceptions */
+    if (dat && (st == eslOK || st == eslENOHALT)) {   /* the ESL_MIN_DAT table: rows 1..niter are complete on these two returns */
+      uint64_t h = 0xcbf29ce484222325ULL; int mono = 1;
+      for (i = 0; i <= dat->niter; i++) { uint64_t u; memcpy(&u, &dat->fx[i], 8); h = fnv(h, u); if (i > 0 && !(dat->fx[i] <= dat->fx[i-1])) mono = 0; }
+      len += sprintf(buf + len, " it=%d nf0=%d mono=%d hash=%016" PRIx64 " bn=", dat->niter, dat->nfunc[0], mono, h);
+      for (i = 1; i <= dat->niter; i++) len += sprintf(buf + len, "%s%d", i > 1 ? "," : "", dat->brack_n[i]);
+      len += sprintf(buf + len, "%s rn=", dat->niter ? "" : "-");
+      for (i = 1; i <= dat->niter; i++) len += sprintf(buf + len, "%s%d", i > 1 ? "," : "", dat->brent_n[i]);
+      len += sprintf(buf + len, "%s nf=", dat->niter ? "" : "-");
+      for (i = 1; i <= dat->niter; i++) len += sprintf(buf + len, "%s%d", i > 1 ? "," : "", dat->nfunc[i]);
+      len += sprintf(buf + len, "%s", dat->niter ? "" : "-");
+    }
+    if (dat) esl_min_dat_Destroy(dat);
     h_out("%s", buf); free(x);
   } else {
     nd = parse_bits_list(h_arg("d"), &d);
